@@ -226,6 +226,88 @@ impl<N, E, Ix: IndexType> Dag<N, E, Ix> {
         }
         Ok(EdgeIndex::new(ei))
     }
+    /// daggy: add all edges, then check once for a cycle; on a cycle remove them
+    /// again and return their weights in reverse order.
+    pub fn add_edges<I>(&mut self, edges: I) -> Result<EdgeIndices<Ix>, WouldCycle<Vec<E>>>
+    where
+        I: IntoIterator<Item = (NodeIndex<Ix>, NodeIndex<Ix>, E)>,
+    {
+        let first = self.n_edges as usize;
+        let mut cyclic = false;
+        for (a, b, weight) in edges {
+            assert!(a.index() < self.n_nodes as usize && b.index() < self.n_nodes as usize, "Graph::add_edge: node indices out of bounds");
+            if petgraph::algo::has_path_connecting(&*self, b, a, None) {
+                cyclic = true;
+            }
+            self.push_edge_unchecked(a, b, weight);
+        }
+        if cyclic {
+            let mut removed = Vec::new();
+            while self.n_edges as usize > first {
+                if let Some(e) = self.edges.pop() {
+                    removed.push(e.weight);
+                }
+                self.n_edges -= 1;
+            }
+            self.rebuild_structure();
+            return Err(WouldCycle(removed));
+        }
+        Ok(EdgeIndices { r: first..self.n_edges as usize, _ix: PhantomData })
+    }
+    fn push_edge_unchecked(&mut self, a: NodeIndex<Ix>, b: NodeIndex<Ix>, weight: E) {
+        let (ai, bi) = (a.index(), b.index());
+        assert!((self.n_edges as usize) < MAX_EDGES, "model bound exceeded: MAX_EDGES");
+        assert!((self.out_n[ai] as usize) < ADJ && (self.in_n[bi] as usize) < ADJ, "model bound exceeded: ADJ");
+        push_reserved(&mut self.edges, Edge { weight, node: [a, b] });
+        let ei = self.n_edges as usize;
+        self.n_edges += 1;
+        self.e_src[ei] = ai as u8;
+        self.e_dst[ei] = bi as u8;
+        self.out_e[ai][self.out_n[ai] as usize] = ei as u8;
+        self.out_n[ai] += 1;
+        self.in_e[bi][self.in_n[bi] as usize] = ei as u8;
+        self.in_n[bi] += 1;
+        let rb = self.reach[bi];
+        let mut i = 0;
+        while i < MAX_NODES {
+            if self.reach[i] & (1 << ai) != 0 {
+                self.reach[i] |= rb;
+            }
+            i += 1;
+        }
+    }
+    /// Recomputes adjacency lists and reachability from the first `n_edges` edges.
+    fn rebuild_structure(&mut self) {
+        self.out_n = [0; MAX_NODES];
+        self.in_n = [0; MAX_NODES];
+        let mut i = 0;
+        while i < MAX_NODES {
+            self.reach[i] = 1 << i;
+            i += 1;
+        }
+        let mut e = 0;
+        while e < MAX_EDGES {
+            if e < self.n_edges as usize {
+                let (ai, bi) = (self.e_src[e] as usize, self.e_dst[e] as usize);
+                self.out_e[ai][self.out_n[ai] as usize] = e as u8;
+                self.out_n[ai] += 1;
+                self.in_e[bi][self.in_n[bi] as usize] = e as u8;
+                self.in_n[bi] += 1;
+                let rb = self.reach[bi];
+                let mut i = 0;
+                while i < MAX_NODES {
+                    if self.reach[i] & (1 << ai) != 0 {
+                        self.reach[i] |= rb;
+                    }
+                    i += 1;
+                }
+            }
+            e += 1;
+        }
+    }
+    pub fn edge_weight_mut(&mut self, e: EdgeIndex<Ix>) -> Option<&mut E> {
+        self.edges.get_mut(e.index()).map(|e| &mut e.weight)
+    }
     pub fn update_edge(&mut self, a: NodeIndex<Ix>, b: NodeIndex<Ix>, weight: E) -> Result<EdgeIndex<Ix>, WouldCycle<E>> {
         if let Some(ix) = self.find_edge(a, b) {
             self.edges[ix.index()].weight = weight;
@@ -260,20 +342,6 @@ impl<N, E, Ix: IndexType> Dag<N, E, Ix> {
     pub fn parents(&self, child: NodeIndex<Ix>) -> Parents<N, E, Ix> {
         Parents { node: child, k: 0, _m: PhantomData }
     }
-    fn has_incoming_unordered(&self, n: usize, ordered: &[bool; MAX_NODES]) -> bool {
-        let mut r = false;
-        let mut k = 0;
-        while k < ADJ {
-            if k < self.in_n[n] as usize {
-                let ei = self.in_e[n][k] as usize;
-                if !ordered[self.e_src[ei] as usize] {
-                    r = true;
-                }
-            }
-            k += 1;
-        }
-        r
-    }
 }
 impl<N, E, Ix: IndexType> Index<NodeIndex<Ix>> for Dag<N, E, Ix> {
     type Output = N;
@@ -287,6 +355,16 @@ impl<N, E, Ix: IndexType> IndexMut<NodeIndex<Ix>> for Dag<N, E, Ix> {
     }
 }
 
+pub struct EdgeIndices<Ix> {
+    r: core::ops::Range<usize>,
+    _ix: PhantomData<Ix>,
+}
+impl<Ix: IndexType> Iterator for EdgeIndices<Ix> {
+    type Item = EdgeIndex<Ix>;
+    fn next(&mut self) -> Option<Self::Item> {
+        self.r.next().map(EdgeIndex::new)
+    }
+}
 pub struct NodeIndices<Ix> {
     r: core::ops::Range<usize>,
     _ix: PhantomData<Ix>,
@@ -414,6 +492,58 @@ pub mod petgraph {
         pub trait IntoNodeReferences {}
         impl<'a, N, E, Ix: IndexType> IntoNodeReferences for &'a Dag<N, E, Ix> {}
 
+        /// `petgraph::visit::Reversed`: the same graph with every edge reversed.
+        #[derive(Clone, Copy, Debug)]
+        pub struct Reversed<G>(pub G);
+
+        /// What `Topo` needs from a graph (implemented for `&Dag` and `Reversed<&Dag>`).
+        pub trait TopoGraph: Copy {
+            type Ix: IndexType;
+            fn node_count(&self) -> usize;
+            fn in_degree(&self, n: usize) -> usize;
+            /// k-th incoming neighbour in insertion order.
+            fn in_neighbor(&self, n: usize, k: usize) -> usize;
+            fn out_degree(&self, n: usize) -> usize;
+            /// k-th outgoing neighbour in insertion order.
+            fn out_neighbor(&self, n: usize, k: usize) -> usize;
+        }
+        impl<'a, N, E, Ix: IndexType> TopoGraph for &'a Dag<N, E, Ix> {
+            type Ix = Ix;
+            fn node_count(&self) -> usize {
+                Dag::node_count(self)
+            }
+            fn in_degree(&self, n: usize) -> usize {
+                self.in_n[n] as usize
+            }
+            fn in_neighbor(&self, n: usize, k: usize) -> usize {
+                self.e_src[self.in_e[n][k] as usize] as usize
+            }
+            fn out_degree(&self, n: usize) -> usize {
+                self.out_n[n] as usize
+            }
+            fn out_neighbor(&self, n: usize, k: usize) -> usize {
+                self.e_dst[self.out_e[n][k] as usize] as usize
+            }
+        }
+        impl<'a, N, E, Ix: IndexType> TopoGraph for Reversed<&'a Dag<N, E, Ix>> {
+            type Ix = Ix;
+            fn node_count(&self) -> usize {
+                Dag::node_count(self.0)
+            }
+            fn in_degree(&self, n: usize) -> usize {
+                self.0.out_n[n] as usize
+            }
+            fn in_neighbor(&self, n: usize, k: usize) -> usize {
+                self.0.e_dst[self.0.out_e[n][k] as usize] as usize
+            }
+            fn out_degree(&self, n: usize) -> usize {
+                self.0.in_n[n] as usize
+            }
+            fn out_neighbor(&self, n: usize, k: usize) -> usize {
+                self.0.e_src[self.0.in_e[n][k] as usize] as usize
+            }
+        }
+
         #[derive(Clone, Debug)]
         pub struct Topo<N, VM> {
             tovisit: [u8; MAX_NODES + MAX_EDGES],
@@ -421,14 +551,25 @@ pub mod petgraph {
             ordered: [bool; MAX_NODES],
             _m: core::marker::PhantomData<(N, VM)>,
         }
+        fn has_incoming_unordered<G: TopoGraph>(g: G, n: usize, ordered: &[bool; MAX_NODES]) -> bool {
+            let mut r = false;
+            let mut k = 0;
+            while k < ADJ {
+                if k < g.in_degree(n) && !ordered[g.in_neighbor(n, k)] {
+                    r = true;
+                }
+                k += 1;
+            }
+            r
+        }
         impl<Ix: IndexType> Topo<NodeIndex<Ix>, fixedbitset::FixedBitSet> {
             /// petgraph: the initial stack holds every node without incoming
             /// edges, in index order.
-            pub fn new<N, E>(g: &Dag<N, E, Ix>) -> Self {
+            pub fn new<G: TopoGraph<Ix = Ix>>(g: G) -> Self {
                 let mut t = Topo { tovisit: [0; MAX_NODES + MAX_EDGES], ntovisit: 0, ordered: [false; MAX_NODES], _m: core::marker::PhantomData };
                 let mut i = 0;
                 while i < MAX_NODES {
-                    if i < g.node_count() && g.in_n[i] == 0 {
+                    if i < g.node_count() && g.in_degree(i) == 0 {
                         t.tovisit[t.ntovisit as usize] = i as u8;
                         t.ntovisit += 1;
                     }
@@ -439,7 +580,7 @@ pub mod petgraph {
             /// petgraph: pop until an unvisited node is found, mark it, push
             /// every neighbour (most recent edge first) all of whose incoming
             /// neighbours are visited, return the node.
-            pub fn next<N, E>(&mut self, g: &Dag<N, E, Ix>) -> Option<NodeIndex<Ix>> {
+            pub fn next<G: TopoGraph<Ix = Ix>>(&mut self, g: G) -> Option<NodeIndex<Ix>> {
                 // at most one pop per stack slot; the constant bound keeps the
                 // loop's unwinding independent of the global bound
                 let mut pops = 0;
@@ -454,9 +595,9 @@ pub mod petgraph {
                     let mut k = ADJ;
                     while k > 0 {
                         k -= 1;
-                        if k < g.out_n[nix] as usize {
-                            let c = g.e_dst[g.out_e[nix][k] as usize] as usize;
-                            if !g.has_incoming_unordered(c, &self.ordered) {
+                        if k < g.out_degree(nix) {
+                            let c = g.out_neighbor(nix, k);
+                            if !has_incoming_unordered(g, c, &self.ordered) {
                                 self.tovisit[self.ntovisit as usize] = c as u8;
                                 self.ntovisit += 1;
                             }
@@ -468,9 +609,9 @@ pub mod petgraph {
                 None
             }
         }
-        impl<'a, N, E, Ix: IndexType> Walker<&'a Dag<N, E, Ix>> for Topo<NodeIndex<Ix>, fixedbitset::FixedBitSet> {
-            type Item = NodeIndex<Ix>;
-            fn walk_next(&mut self, g: &'a Dag<N, E, Ix>) -> Option<NodeIndex<Ix>> {
+        impl<G: TopoGraph> Walker<G> for Topo<NodeIndex<G::Ix>, fixedbitset::FixedBitSet> {
+            type Item = NodeIndex<G::Ix>;
+            fn walk_next(&mut self, g: G) -> Option<NodeIndex<G::Ix>> {
                 self.next(g)
             }
         }
@@ -481,5 +622,20 @@ pub mod petgraph {
         pub fn has_path_connecting<N, E, Ix: IndexType>(g: &Dag<N, E, Ix>, from: NodeIndex<Ix>, to: NodeIndex<Ix>, _space: Option<&mut DfsSpace>) -> bool {
             g.reach_bit(from.index(), to.index())
         }
+    }
+}
+
+/// serde: `fn_graph::GraphInfo` derives Serialize / Deserialize over its `Dag`
+/// field, so the impls must exist; the model never (de)serialises.
+#[cfg(feature = "serde-1")]
+impl<N, E, Ix> serde::Serialize for Dag<N, E, Ix> {
+    fn serialize<S: serde::Serializer>(&self, _s: S) -> Result<S::Ok, S::Error> {
+        unimplemented!("verification model: Dag is not serialised")
+    }
+}
+#[cfg(feature = "serde-1")]
+impl<'de, N, E, Ix> serde::Deserialize<'de> for Dag<N, E, Ix> {
+    fn deserialize<D: serde::Deserializer<'de>>(_d: D) -> Result<Self, D::Error> {
+        unimplemented!("verification model: Dag is not deserialised")
     }
 }
